@@ -55,7 +55,7 @@ def c12_program(draw):
         mains.append(path)
         labels += labs
     kind = draw(st.sampled_from(["cancel", "cancel", "cancel", "const", "none", "two", "self", "skips", "skips"]))
-    K = draw(st.sampled_from([0o2000, 0o1000, 0o40000, 0o100, 0o100000, 0o600, 0o157000, 0, 0o10]))
+    K = draw(st.sampled_from([0o2000, 0o1000, 0o40000, 0o100, 0o100000, 0o600, 0o157000, 0, 0o10, 0o200000, 0o177770]))
     meta = {"kind": kind, "K": K, "diffs": 0, "skips": []}
     # the file that carries the directive: any linked file for '.link' (the base is a property of the whole program), the first
     # one for a leading '. =' and for the skip programs
